@@ -1,6 +1,7 @@
 import PV.C07.Model
 import PV.C07.Spec
 import PV.C07.Lemmas5
+import PV.C07.Lemmas6
 import PV.Gen.C07Tables
 /-
   C07 — property theorems: f-strings decompose into the reference literal parts and replacement
@@ -8,10 +9,10 @@ import PV.Gen.C07Tables
 
   Reading guide.  `Spec.split lookup strict raw body off` is the reference scanner (CPython 3.11,
   pre-PEP 701 rules; validated against CPython itself on every run).  With `strict = true` it is
-  restricted to the DOMAIN of the partial theorem: it answers `none` on exactly the shapes listed in
-  `Spec.lean` (one known finding with a witness below, and two shapes no source can produce or
-  the text/offset abstraction cannot judge).  The model mirrors /repo after the fixes c09f12b,
-  897a1b6, 40fcb23, dfa74fc and d717a96.  `parseFString` is the model of the Rust
+  restricted to the DOMAIN of the theorem: it answers `none` on exactly the two shapes listed in
+  `Spec.lean` (one no source can produce, one the text/offset abstraction cannot judge; witnesses
+  `outside_domain_cr`, `outside_domain_unispace`).  The model mirrors /repo after the fixes c09f12b,
+  897a1b6, 40fcb23, dfa74fc, d717a96 and the `merge_constants` fix of `parse_spec`.  `parseFString` is the model of the Rust
   scanner; a field is `(expression text, absolute offset, conversion, nested spec)`.
   `Spec.merge` concatenates adjacent literal pieces and drops empty ones — what the reference does
   on the fly and `parse_strings` does afterwards (`dedup`).  `NoSurr body`: the body is a Rust `str`.
@@ -26,13 +27,6 @@ open PV.C06
 theorem conv_table_eq : Gen.convTable = Spec.convTable := by decide +kernel
 
 /-! ### the scanner agrees with the reference on the domain -/
-
-/-- the full statement (all f-strings the reference accepts) -/
-def fstring_full : Prop :=
-  ∀ (lookup : List Nat → Option Nat), LookupOk lookup → ∀ (kind : Kind), kind.isAnyFString = true →
-  ∀ (body : List Nat), NoSurr body → ∀ (off : Nat) (ps : List Piece),
-    Spec.split lookup false kind.isRaw body off = some ps →
-    ∃ qs, parseFString lookup kind body off = .ok qs ∧ Spec.merge qs = ps
 
 /-- For every f-string body, of any length, that the reference accepts inside the domain: the Rust
     scanner accepts it and produces — after merging adjacent literal pieces — exactly the reference
@@ -73,24 +67,41 @@ example : Spec.split (fun _ => none) true false [123, 120, 58, 92, 120, 51, 101,
 example : parseFString (fun _ => none) .fstr [123, 120, 58, 92, 120, 51, 101, 53, 125] 2
     = .ok [.field [120] 3 .none (some [.lit [62, 53]])] := by with_unfolding_all rfl
 
-/-! ### … and deviates outside it (witness on the model; reproduced on the real code) -/
+-- f'{x:{y=}}' and f'{x:a{y=}b}': a self-documenting field nested in a format spec — the echo text is merged with
+-- the literal text of the spec (repaired in /repo by `merge_constants`; the former finding selfdoc-in-spec-unmerged)
+example : Spec.split (fun _ => none) true false [123, 120, 58, 123, 121, 61, 125, 125] 2
+    = some [.field [120] 3 .none (some [.lit [121, 61], .field [121] 6 .repr none])] := by rfl
+example : parseFString (fun _ => none) .fstr [123, 120, 58, 123, 121, 61, 125, 125] 2
+    = .ok [.field [120] 3 .none (some [.lit [121, 61], .field [121] 6 .repr none])] := by with_unfolding_all rfl
+example : Spec.split (fun _ => none) true false [123, 120, 58, 97, 123, 121, 61, 125, 98, 125] 2
+    = some [.field [120] 3 .none (some [.lit [97, 121, 61], .field [121] 7 .repr none, .lit [98]])] := by rfl
+example : parseFString (fun _ => none) .fstr [123, 120, 58, 97, 123, 121, 61, 125, 98, 125] 2
+    = .ok [.field [120] 3 .none (some [.lit [97, 121, 61], .field [121] 7 .repr none, .lit [98]])] := by with_unfolding_all rfl
 
-/-- `f'{x:{y=}}'`: inside a format spec the echo pieces of a self-documenting field stay unmerged
-    (and an empty constant is kept). -/
-theorem fstring_deviates_selfdoc_in_spec :
-    Spec.split (fun _ => none) false false [123, 120, 58, 123, 121, 61, 125, 125] 2
-      = some [.field [120] 3 .none (some [.lit [121, 61], .field [121] 6 .repr none])] ∧
-    parseFString (fun _ => none) .fstr [123, 120, 58, 123, 121, 61, 125, 125] 2
-      = .ok [.field [120] 3 .none (some [.lit [121, 61], .lit [], .field [121] 6 .repr none])] := ⟨by rfl, by with_unfolding_all rfl⟩
+/-! ### what the domain leaves out
 
-/-- hence the full statement fails on the code as it is -/
-theorem fstring_full_fails : ¬ fstring_full := by
-  intro h
-  obtain ⟨qs, e, hm⟩ := h (fun _ => none) ⟨fun _ _ => rfl, fun _ _ h => by cases h⟩ .fstr rfl
-    [123, 120, 58, 123, 121, 61, 125, 125] (by intro x hx; revert x; decide) 2 _ fstring_deviates_selfdoc_in_spec.1
-  rw [fstring_deviates_selfdoc_in_spec.2] at e
-  cases e
-  simp [Spec.merge, Spec.mergeGo] at hm
+`strict := true` differs from the reference rules in two places only (`Spec.field`): a CR among the
+white space after a self-documenting `=` (no source produces such a token value: CPython's reader and
+the Rust lexer turn every CR into LF), and an expression text made of Unicode white space only (the
+reference goes on to reject it as an invalid expression, which the text/offset abstraction does not
+see).  Both are witnessed below on the model; neither is an f-string the reference accepts. -/
+
+/-- `{x=<CR>}` as a token value (not producible by a source): `Py_ISSPACE` takes the CR, the Rust
+    scanner does not -/
+theorem outside_domain_cr :
+    Spec.split (fun _ => none) true false [123, 120, 61, 13, 125] 2 = none ∧
+    Spec.split (fun _ => none) false false [123, 120, 61, 13, 125] 2
+      = some [.lit [120, 61, 13], .field [120] 3 .repr none] ∧
+    parseFString (fun _ => none) .fstr [123, 120, 61, 13, 125] 2 = .error ⟨.fstring .unclosedLbrace, 6⟩ :=
+  ⟨by rfl, by rfl, by with_unfolding_all rfl⟩
+
+/-- `{<NBSP>}`: for the Rust scanner an empty expression (`str::trim`), for the reference scanner a
+    field whose text the expression parser then rejects -/
+theorem outside_domain_unispace :
+    Spec.split (fun _ => none) true false [123, 160, 125] 2 = none ∧
+    Spec.split (fun _ => none) false false [123, 160, 125] 2 = some [.field [160] 3 .none none] ∧
+    parseFString (fun _ => none) .fstr [123, 160, 125] 2 = .error ⟨.fstring .emptyExpression, 6⟩ :=
+  ⟨by rfl, by rfl, by with_unfolding_all rfl⟩
 
 /-! ### merging of adjacent pieces across implicitly concatenated literals -/
 
@@ -184,6 +195,80 @@ theorem capture_no_cr (q : Nat) (hq : csize q = 1) (triple : Bool) (fuel : Nat) 
 
 example : fieldsOf [.lit [97], .field [120] 4 .repr (some [.lit [62], .field [119] 10 .none none])]
     = [([120], 4), ([119], 10)] := by simp [fieldsOf, pieceFields]
+
+/-! ### field offsets are offsets into the source file (the glue with `lex_string`) -/
+
+/-- The composition of `field_offsets` with the lexer's capture, over the SHARED lexer model
+    (`PV.Lexer`, tied to lexer.rs by C05's streams): let the file be `before ++ inp`, let
+    `lex_identifier` (the only producer of prefixed string tokens) return at `inp` an f-string token
+    `(value, k, triple)` of `n` characters none of which is a CR.  `StringParser::new` starts the
+    scanner at `start + prefix_len + (3 | 1)` with `start` = the token's byte offset `utf8Len before`.
+    Then, for a body in the domain of `fstring_eq_spec_partial`, every field the Rust scanner
+    reports — nested ones included — carries the byte offset of its own expression text IN THE FILE:
+    `before ++ inp = pre ++ text ++ post` with `start = utf8Len pre`.  Holds for single and
+    triple quotes and for every f-string prefix (`f F rf rF Rf RF fr fR Fr FR`, see
+    `fstring_prefixes_lexed`); the CR-free hypothesis is exactly what the listed finding
+    `crlf-field-offset` violates (`field_offsets_crlf_fails`). -/
+theorem field_offsets_in_source (up : PV.Lexer.UParams) (lookup : List Nat → Option Nat) (hl : LookupOk lookup)
+    (before inp value : List Nat) (k : PV.Lexer.StringKind) (triple : Bool) (n : Nat)
+    (hlex : PV.Lexer.lexIdentifier up inp = .ok (.string value k triple, n))
+    (hf : k.isAnyFString = true) (hcr : ∀ x ∈ inp.take n, x ≠ 13) (hns : NoSurr value) (ps : List Piece)
+    (h : Spec.split lookup true (kindOf k).isRaw value
+          (utf8Len before + k.prefixLen + (if triple then 3 else 1)) = some ps) :
+    ∃ qs, parseFString lookup (kindOf k) value (utf8Len before + k.prefixLen + (if triple then 3 else 1)) = .ok qs ∧
+      Spec.merge qs = ps ∧
+      ∀ p ∈ fieldsOf qs, ∃ pre post, before ++ inp = pre ++ p.1 ++ post ∧ p.2 = utf8Len pre := by
+  obtain ⟨qs, hq, hm⟩ := fstring_eq_spec_partial lookup hl (kindOf k)
+    (by rw [kindOf_isAnyFString]; exact hf) value hns _ ps h
+  refine ⟨qs, hq, hm, ?_⟩
+  intro p hp
+  rw [← fieldsOf_merge, hm] at hp
+  obtain ⟨pre, post, e1, e2⟩ := field_offsets lookup true _ value _ ps h p hp
+  obtain ⟨hls, hascii, q, hq1, hq2⟩ := lexIdentifier_string up inp value k triple n hlex
+  obtain ⟨_, hlen, q', hq', hn, htake⟩ := lexString_noCR k inp value k triple n hls hcr
+  have : q' = q := by rw [hq1] at hq'; cases hq'; rfl
+  subst this
+  have hsplit : inp = inp.take n ++ inp.drop n := (List.take_append_drop n inp).symm
+  refine ⟨before ++ inp.take k.prefixLen ++ closing q' triple ++ pre, post ++ closing q' triple ++ inp.drop n, ?_, ?_⟩
+  · conv => lhs; rw [hsplit, htake, e1]
+    simp
+  · rw [e2, ulen_eq, utf8Len_append, utf8Len_append, utf8Len_append, utf8Len_ascii _ hascii]
+    have hc : utf8Len (closing q' triple) = if triple then 3 else 1 := by
+      have hcs : csize q' = 1 := by rcases hq2 with rfl | rfl <;> rfl
+      unfold closing
+      cases triple <;> simp [utf8Len, hcs]
+    rw [hc]; simp; omega
+
+/-- no non-ASCII identifier characters: enough to run the lexer model on the ASCII examples below -/
+def upNone : PV.Lexer.UParams := ⟨fun _ => false, fun _ => false, fun _ => false⟩
+
+/-- the ten spellings of an f-string prefix (`f F`, and `r`/`f` in both orders and cases) -/
+def fPrefixes : List (List Nat) :=
+  [[102], [70], [114, 102], [114, 70], [82, 102], [82, 70], [102, 114], [102, 82], [70, 114], [70, 82]]
+
+/-- Every f-string prefix, with either quote character, single or triple quoted, is lexed by the
+    shared lexer model as an f-string token whose value is the text between the quotes (here the
+    body `a{x}` followed by ` y`; the kind is raw exactly for the two-letter prefixes): the
+    hypotheses of `field_offsets_in_source` are met by all `10 × 2 × 2` forms. -/
+theorem fstring_prefixes_lexed : ∀ p ∈ fPrefixes, ∀ q ∈ [34, 39], ∀ t ∈ [true, false],
+    PV.Lexer.lexIdentifier upNone (p ++ closing q t ++ [97, 123, 120, 125] ++ closing q t ++ [32, 121])
+      = .ok (.string [97, 123, 120, 125] (if p.length = 2 then .rawFString else .fstring) t,
+             p.length + 2 * (closing q t).length + 4) := by
+  intro p hp q hq t ht
+  simp only [fPrefixes, List.mem_cons, List.mem_nil_iff, or_false] at hp hq ht
+  rcases hp with rfl | rfl | rfl | rfl | rfl | rfl | rfl | rfl | rfl | rfl <;> rcases hq with rfl | rfl <;>
+    rcases ht with rfl | rfl <;> rfl
+
+-- non-vacuity: `z = rF'''a{x!r:>{w}}''' ` — the token starts at byte 4 of the file, the scanner at 4 + 2 + 3 = 9;
+-- `x` is at byte 11 and `w` at byte 17 of the file
+example : PV.Lexer.lexIdentifier upNone
+      [114, 70, 39, 39, 39, 97, 123, 120, 33, 114, 58, 62, 123, 119, 125, 125, 39, 39, 39, 32]
+    = .ok (.string [97, 123, 120, 33, 114, 58, 62, 123, 119, 125, 125] .rawFString true, 19) := by rfl
+example : parseFString (fun _ => none) .rawFStr [97, 123, 120, 33, 114, 58, 62, 123, 119, 125, 125] 9
+    = .ok [.lit [97], .field [120] 11 .repr (some [.lit [62], .field [119] 17 .none none])] := by
+  with_unfolding_all rfl
+example : ([122, 32, 61, 32] ++ [114, 70, 39, 39, 39, 97, 123, 120, 33, 114, 58, 62, 123, 119, 125, 125, 39, 39, 39, 32] : List Nat).drop 11
+    = [120, 33, 114, 58, 62, 123, 119, 125, 125, 39, 39, 39, 32] := by rfl
 
 /-- `f'''\r\n{x}'''`: the lexer hands `\n{x}` (CRLF folded) to the scanner, which places `x` at
     byte 6; in the source the text of `x` is at byte 7. -/
